@@ -55,8 +55,8 @@ pub fn lcs_by_score<T>(
         if i > 0 && j > 0 {
             let score = score_fn(&old[i - 1], &new[j - 1]);
 
-            if score > 0.0 {
-                // Likely matched
+            if score > 0.0 && dp[i][j] == dp[i - 1][j - 1] + score {
+                // Matched on a path that reaches the optimum of the table
                 results.push(DiffResult::Common {
                     old_index: i - 1,
                     new_index: j - 1,
